@@ -20,11 +20,6 @@ Lemma rmul_list_agree : forall p,
   np_PauliList_rmul_m1 p = np_Pauli_rmul_m1 p /\ np_PauliList_rmul_mi p = np_Pauli_rmul_mi p /\ np_PauliList_neg p = np_Pauli_neg p.
 Proof. intros; repeat split; reflexivity. Qed.
 
-Lemma torch_tokens_agree : forall x z p : bool * bool, True ->
-  (forall a b : bool, torch_tok_site (zb a) (zb b) = np_tok_site (zb a) (zb b)) /\
-  (torch_tok_phase 0 = np_tok_phase 0 /\ torch_tok_phase 1 = np_tok_phase 1 /\ torch_tok_phase 2 = np_tok_phase 2 /\ torch_tok_phase 3 = np_tok_phase 3).
-Proof. intros _ _ _ _. split; [intros [|] [|]; vm_compute; reflexivity | vm_compute; repeat split; reflexivity]. Qed.
-
 Lemma get_int_nonneg : forall (l : plist) i, (0 <= i < Z.of_nat (length l)) -> get_int l i = nth_error l (Z.to_nat i).
 Proof.
   intros l i H. unfold get_int, norm_index.
